@@ -609,3 +609,12 @@ pub fn split_id(id: Id) -> (PageIndex, SlotIndex) {
     let page = index >> PAGE_LEN_BITS;
     (PageIndex::new(page), SlotIndex::new(slot))
 }
+
+/// Verification hook: Kani proof harnesses for this module's private items (text lives outside
+/// this repository, in `$SALSA_VERIF_HARNESS_DIR`).
+#[cfg(kani)]
+#[allow(dead_code, unused_imports)]
+pub(crate) mod verif {
+    use super::*;
+    include!(concat!(env!("SALSA_VERIF_HARNESS_DIR"), "/table.rs"));
+}
